@@ -139,4 +139,19 @@ theorem C06_pickler_agree (cfg : Cfg) (hook : Hook) (mz : Option PKey → Bool) 
     (∃ r st', pvmLoad bs = (.ok r, st', []) ∧ PRep st'.heap r (pyOf (erase v))) :=
   ⟨C02_pickler_shared cfg hook mz py p hp5 v bs hgo hd st0 hfresh, C06_pickler_pvm mz py p hp5 v bs hpy hd hlen⟩
 
+/-- **C06 on CPython's own pickles, binary protocols 1–5**: all hypotheses decidable (`pkOKb`, `pyOKb`) — they are evaluated for every
+    case of the correspondence run. -/
+theorem C06_pickler_agree_bin (cfg : Cfg) (hook : Hook) (mz : Option PKey → Bool) (py : Bool) (p : Nat) (hp1 : 1 ≤ p) (hp5 : p ≤ 5)
+    (v : PyObjS) (bs : Bytes) (hgo : pkOKb cfg (erase v) = true) (hpy : pyOKb (erase v) = true)
+    (hd : cpDumpsFramedS mz py p v = some bs) (hlen : bs.length < 2 ^ 63) (st0 : DState) (hfresh : st0.memo = []) :
+    (∃ r st', decode (goCfg cfg) hook st0 bs = (.ok r, st', []) ∧ Rep (goCfg cfg) GoVal.ref st'.heap r (goOf (erase v))) ∧
+    (∃ r st', pvmLoad bs = (.ok r, st', []) ∧ PRep st'.heap r (pyOf (erase v))) :=
+  C06_pickler_agree cfg hook mz py p hp5 v bs (pkOK_of_b cfg p hp1 _ hgo) (pyOKp_of_b p hp1 _ hpy) hd hlen st0 hfresh
+
+/-- Non-vacuity: two records sharing their key strings and a bytes object, a bytearray, a big int and a nested tuple key. -/
+example : pyOKb (erase
+    (.list [.dict [(.str 1 (sb "id"), .int 1), (.str 2 (sb "data"), .bytes 3 [1, 2, 255]), (.tuple [.int (2 ^ 70), .float 0x7ff8000000000000], .none)],
+            .dict [(.str 1 (sb "id"), .int 2), (.str 2 (sb "data"), .bytes 3 [1, 2, 255])], .bytearray 4 [7], .bytes 5 []])) = true := by
+  decide
+
 end Ogorek
